@@ -144,12 +144,21 @@ def loop_table(wd):
 def resolve_unwindset(q, wd):
     """Entries: 'loopid:N' | '@file.c:LINE:N' (loop at that source line) | 'func.*:N' (all loops of func;
     also matches the file-local mangled name) | recursion bounds 'func:N' pass through."""
-    if not any(e.startswith("@") or ".*:" in e for e in q.unwindset):
+    if not any(e.startswith("@") or ".*:" in e or re.match(r"^[A-Za-z_]\w*:\d+$", e) for e in q.unwindset):
         return list(q.unwindset)
     loops = loop_table(wd)
+    rc, fout, err, to, _ = sh(["goto-instrument", "--list-goto-functions", os.path.join(wd, "q.goto")], timeout=120)
+    funcs = set(re.findall(r"/\* ([A-Za-z_$][\w$]*)(?:,| \*/)", fout))
     out = []
     for e in q.unwindset:
-        if e.startswith("@"):
+        if re.match(r"^[A-Za-z_]\w*:\d+$", e):
+            # recursion bound: keep only for functions that exist in this binary (also try the file-local mangled name)
+            fn, n = e.split(":")
+            if fn in funcs:
+                out.append(e)
+            else:
+                out += ["%s:%s" % (f, n) for f in funcs if f.startswith("__CPROVER_file_local_") and f.endswith("_c_" + fn)]
+        elif e.startswith("@"):
             f, line, n = e[1:].rsplit(":", 2)
             hit = [l for l in loops if l[1] == f and l[2] == int(line)]
             if not hit:
